@@ -2,12 +2,13 @@
 EXTENDS FlowSync
 \* entry objects: 1 = (in_port 1, prio 5); 2 = (all wildcarded, prio 5) - covers everything as a delete pattern;
 \* 3 = a second object with the (match, priority) of 1; 4 = (in_port 1 & dl_type 8, prio 7) - covered by 1 and 2
-\* non-strictly, never hit strictly by them
-MCMatch == [o \in 1..4 |-> CASE o = 1 -> [ip |-> 1, dt |-> 0]
+\* non-strictly, never hit strictly by them; 5 = the match of 1 with another priority (7)
+MCMatch == [o \in 1..5 |-> CASE o = 1 -> [ip |-> 1, dt |-> 0]
                              [] o = 2 -> [ip |-> 0, dt |-> 0]
                              [] o = 3 -> [ip |-> 1, dt |-> 0]
-                             [] o = 4 -> [ip |-> 1, dt |-> 8]]
-MCPrio == [o \in 1..4 |-> IF o = 4 THEN 7 ELSE 5]
+                             [] o = 4 -> [ip |-> 1, dt |-> 8]
+                             [] o = 5 -> [ip |-> 1, dt |-> 0]]
+MCPrio == [o \in 1..5 |-> IF o >= 4 THEN 7 ELSE 5]
 NoDev == {}
 Actual == AllDev
 OnlyAddNoReplace == {"AddNoReplace"}
@@ -16,4 +17,5 @@ OnlyWildCrash == {"WildRemoveCrash"}
 OnlyResend == {"Resend"}
 OnlyFlowRem == {"FlowRemProxyErr"}
 OnlyConflate == {"Conflate"}
+OnlyRejoin == {"RejoinFails"}
 ====
